@@ -1,5 +1,6 @@
 """C15 -- cone step lengths are safe and tight (structural clauses)"""
 from . import steplen
+from . import c14
 
 CONFIGS = ['default', 'full']
 TECHNIQUE = 'min-lattice dataflow over MIR (result <= requested maximum), path/decision-table rules, sibling agreement of the three backtracking cones'
@@ -15,7 +16,9 @@ EXPLANATION = (
     "first and target = max(1, .) added afterwards, as two separate shifts (a merged or reversed shift rounds the "
     "worst component onto the boundary); composite margin = min over cones, shift forwarded unchanged; (R6) the "
     "second-order cone routine applies the scalar-part cap min(alpha_max, -x0/y0) before every return, including the "
-    "three early exits of the root computation.")
+    "three early exits of the root computation; (R7) in the degenerate case a == 0 the single root -c/b limits the step when "
+    "b < 0 (finding F6, fixed); (R8) the power cone's membership tests used by the backtracking search are even in the "
+    "third coordinate (the cone is symmetric under s3 -> -s3), as are its barrier, gradient and Hessian parities.")
 ASSUMPTIONS = [
     'rustc MIR construction and trait resolution are correct',
     'alpha_max >= 0; 0 <= linesearch_backtrack_step <= 1 (settings are not validated by the crate)',
@@ -35,3 +38,4 @@ def run(ctx, rep, tier):
         steplen.interior_shift(rep, F, tag, 'C15.R5')
         steplen.soc_scalar_cap(rep, F, tag, 'C15.R6')
         steplen.soc_linear_case(rep, F, tag, 'C15.R7')
+        c14.reflection_symmetry(rep, F, E, tag, 'C15.R8')
